@@ -422,6 +422,8 @@ func runC01(p params) error {
 	for i := 0; i < n; i++ {
 		c01AddCase(out, "random-pair", gen(i))
 	}
+	// configurations used through Config.Clone carry the fields this property depends on
+	cloneCases(out, []string{"tlcp", "dtlcp"}, map[string][]string{}) // every exported field (nil list per stack)
 	return out.Finish()
 }
 
